@@ -22,7 +22,7 @@ var builtinSyms = map[string]bool{
 	"VNil": true, "VStr": true, "VNum": true, "VBool": true, "VF64": true, "VInt": true, "VMap": true, "VArr": true, "VOp": true, "VBy": true, "VOther": true,
 	"sv": true, "nv": true, "bv": true, "fv": true, "iv": true, "mv": true, "av": true, "ov": true, "yv": true, "xty": true, "xv": true,
 	"mkslice": true, "sbase": true, "soff": true, "slen_": true, "scap": true, "nilslice": true,
-	"slen": true, "sbyte": true, "sconcat": true, "substr": true, "strarr": true, "mkbytes": true, "bstr": true, "bitand": true, "i2f": true, "runestr": true,
+	"slen": true, "sbyte": true, "sconcat": true, "substr": true, "strarr": true, "mkbytes": true, "bstr": true, "bitand": true, "i2f": true, "runestr": true, "dyntype": true,
 	"f64_0": true, "opq_zero": true,
 }
 
@@ -43,6 +43,7 @@ const fixedPrelude = `(declare-sort Str 0)
 (declare-fun bitand (Int Int) Int)
 (declare-fun i2f (Int) F64)
 (declare-fun runestr (Int) Str)
+(declare-fun dyntype (Int) Int)
 (declare-const f64_0 F64)
 (declare-const opq_zero Opq)
 `
@@ -143,16 +144,15 @@ func (s *Solver) Close() { os.RemoveAll(s.tmpdir) }
 func (s *Solver) Script(ob *Obligation) string {
 	g := s.g
 	vc := ob.vc
-	var forms []*Term
-	forms = append(forms, vc.log[:ob.Cut]...)
 	neg := And(ob.Guard, Not(ob.Goal))
+	forms := sliceLog(vc.log[:ob.Cut], neg)
 	forms = append(forms, neg)
 	syms := map[string]bool{}
 	consts := map[string]Sort{}
 	var walk func(t *Term)
 	walk = func(t *Term) {
 		syms[t.Op] = true
-		if len(t.Args) == 0 && !builtinSyms[t.Op] && !reNum.MatchString(t.Op) && !strings.HasPrefix(t.Op, "?") {
+		if len(t.Args) == 0 && !builtinSyms[t.Op] && !reNum.MatchString(t.Op) && !strings.HasPrefix(t.Op, "?") && !strings.HasPrefix(t.Op, "lit!") {
 			if _, isFun := g.spec.Funs[t.Op]; !isFun {
 				if _, isAuto := g.autoFuns[t.Op]; !isAuto {
 					if old, ok := consts[t.Op]; ok && old != t.Sort {
@@ -370,25 +370,139 @@ func (s *Solver) Solve(obs []*Obligation, thorough bool, timeout int, jobs int) 
 				}
 				return
 			}
-			var firstRaw, firstRes string
-			for k, sp := range solvers {
-				to := timeout
-				r, raw, ms := runSolver(sp, s.tmpdir, base, script, to)
-				ob.Ms += ms
-				if r == "unsat" {
-					ob.Result, ob.Backend, ob.Raw = "unsat", sp.name, ""
-					return
-				}
-				if k == 0 {
-					firstRaw, firstRes = raw, r
-				}
-				if r == "sat" {
-					ob.Result, ob.Backend, ob.Raw, ob.Model = "sat", sp.name, raw, raw
-					return
+			// quick: z3-new first; on anything but unsat/sat race the other two
+			r0, raw0, ms0 := runSolver(solvers[0], s.tmpdir, base, script, timeout)
+			ob.Ms += ms0
+			if r0 == "unsat" {
+				ob.Result, ob.Backend = "unsat", solvers[0].name
+				return
+			}
+			if r0 == "sat" {
+				ob.Result, ob.Backend, ob.Raw, ob.Model = "sat", solvers[0].name, raw0, raw0
+				return
+			}
+			type res struct {
+				name, r, raw string
+				ms           int64
+			}
+			ch := make(chan res, 2)
+			fb := timeout
+			if fb > 6 {
+				fb = 6
+			}
+			for _, sp := range solvers[1:] {
+				go func(sp solverSpec) {
+					r, raw, ms := runSolver(sp, s.tmpdir, base, script, fb)
+					ch <- res{sp.name, r, raw, ms}
+				}(sp)
+			}
+			for k := 0; k < 2; k++ {
+				rr := <-ch
+				ob.Ms += rr.ms
+				if rr.r == "unsat" && ob.Result != "unsat" {
+					ob.Result, ob.Backend, ob.Raw = "unsat", rr.name, ""
 				}
 			}
-			ob.Result, ob.Raw, ob.Model = firstRes, firstRaw, firstRaw
+			if ob.Result == "unsat" {
+				return
+			}
+			ob.Result, ob.Raw, ob.Model = r0, raw0, raw0
 		}(i, ob)
 	}
 	wg.Wait()
+}
+
+// ---- cone-of-influence slicing ---------------------------------------------------------------------
+// Dropping hypotheses is always sound (it can only make an obligation harder to prove). The log is mostly
+// definitional (c = term), so a backward slice from the negated goal removes the state of everything the
+// obligation does not talk about and keeps the solvers fast on the long closure of main.
+
+func isConstSym(t *Term) bool {
+	return len(t.Args) == 0 && !builtinSyms[t.Op] && !reNum.MatchString(t.Op) && !strings.HasPrefix(t.Op, "?") && !strings.HasPrefix(t.Op, "lit!")
+}
+
+func constSyms(t *Term, into map[string]bool) {
+	if isConstSym(t) {
+		into[t.Op] = true
+	}
+	for _, a := range t.Args {
+		constSyms(a, into)
+	}
+}
+
+func isHub(sym string) bool {
+	return strings.HasPrefix(sym, "heapTop") || strings.HasPrefix(sym, "ext_") || strings.Contains(sym, "ref_") || sym == "emptyset" || sym == "seqEmpty" || sym == "noBytes"
+}
+
+type logInfo struct {
+	def   string          // defined constant, for "c = term" items
+	trig  map[string]bool // constants that make the item relevant
+	all   map[string]bool // every constant in the item
+	taken bool
+}
+
+var noSlice bool
+
+func sliceLog(log []*Term, neg *Term) []*Term {
+	if noSlice {
+		return log
+	}
+	infos := make([]*logInfo, len(log))
+	for i, f := range log {
+		li := &logInfo{trig: map[string]bool{}, all: map[string]bool{}}
+		constSyms(f, li.all)
+		switch {
+		case f.Op == "=" && len(f.Args) == 2 && isConstSym(f.Args[0]) && !isHub(f.Args[0].Op):
+			li.def = f.Args[0].Op
+			li.trig[li.def] = true
+		case f.Op == "=>" && len(f.Args) == 2:
+			constSyms(f.Args[1], li.trig)
+		default:
+			constSyms(f, li.trig)
+		}
+		hubs := map[string]bool{}
+		for k := range li.trig {
+			if isHub(k) {
+				hubs[k] = true
+				delete(li.trig, k)
+			}
+		}
+		if len(li.trig) == 0 {
+			// facts that speak about hub symbols only (ordering of heap tops etc.) are cheap: keep them reachable
+			li.trig = hubs
+		}
+		infos[i] = li
+	}
+	rel := map[string]bool{}
+	constSyms(neg, rel)
+	for changed := true; changed; {
+		changed = false
+		for _, li := range infos {
+			if li.taken {
+				continue
+			}
+			hit := false
+			for k := range li.trig {
+				if rel[k] {
+					hit = true
+					break
+				}
+			}
+			if !hit {
+				continue
+			}
+			li.taken = true
+			changed = true
+			for k := range li.all {
+				rel[k] = true
+			}
+		}
+	}
+	var out []*Term
+	for i, li := range infos {
+		if li.taken {
+			out = append(out, log[i])
+		}
+	}
+	return out
 }
